@@ -210,7 +210,8 @@ def isolation(ctx, P):
             # (b) re-initialised: .initialise() called in this function on the value read, and initialise re-assigns all state of every stateful class of the family
             reinit = False
             if not copied:
-                calls_init = any(isinstance(y, ast.Call) and isinstance(y.func, ast.Attribute) and y.func.attr == "initialise" for y in ast.walk(fn))
+                calls_init = any(isinstance(y, ast.Call) and isinstance(y.func, ast.Attribute) and y.func.attr == "initialise"
+                                 for y in (rules.walk(P, P.view(ci.name), fn) if ci is not None else ast.walk(fn)))
                 reinit = calls_init and all(reinitialised(P, c, s) for c, s in st.items())
             # only tested for being a Schedule / None: no use of the object
             par = x._parent
@@ -251,7 +252,7 @@ def orders(ctx, P):
                 continue
             if not any(isinstance(y, ast.Call) and call_name(y) in ("sample", "_sample", "random_choice", "random") for y in ast.walk(lp)):
                 continue
-            coll = it if dict_iter else it.func.value
+            coll = rules.inline_locals(fn, it if dict_iter else it.func.value)
             field = coll.attr if isinstance(coll, ast.Attribute) else unparse(coll)
             ob.ok("%s:loop-over-%s" % (P.func_name(fn), field), "%s samples while iterating %s" % (P.func_name(fn), unparse(it)[:70]))
             # construction site(s) of a dict of that name in import_params: comprehension / loops over params['customer_class_names']
@@ -290,4 +291,7 @@ def globals_(ctx, P):
     for c in P.classes.values():
         for st in c.node.body:
             if isinstance(st, ast.Assign) and isinstance(st.value, (ast.List, ast.Dict, ast.Set, ast.Call)):
+                names_ = [t.id for t in st.targets if isinstance(t, ast.Name)]
+                if names_ and all(nm in getattr(P, "class_constants", {}).get(c.name, {}) for nm in names_):
+                    continue        # a literal table that nothing in the package writes or mutates: a constant, not state
                 ctx.violation(ob, "R10.global-state", c.name, unparse(st)[:80], "class-level-mutable", "a mutable class attribute is shared by all simulations in the process", loc(st))
